@@ -81,6 +81,21 @@ CLAIMS = {
   'text': 'Partial, structural: 24 constructors, accessors and views (new, from_bigint, from_biguint, sign, fractional_digit_count, as/into_bigint_and_exponent/scale, digits -> count of the magnitude, to_ref, abs, BigDecimalRef::{to_owned, sign, fractional_digit_count, is_zero, count_digits, as_parts, abs, neg}, the four From<..> for BigDecimalRef) are single-path pure projections equal to their specification. digits()\' counting loop, ten_to_the* and normalized() are NOT decided.',
   'note': TRUST + ' Specification in tables/projection_spec.json.',
  },
+ 'C01': {
+  'technique': 'static analysis: scale-dimension typing (units-of-measure style abstract interpretation over MIR with polynomial value relation) of every arithmetic overload, helper and derived operation',
+  'text': 'Partial but broad, structural: all ~373 Add/Sub/Mul/Neg/*Assign impl functions (every macro-generated overload), the 7 addition helpers, double/half/square/cube/abs/Signed::abs, both Sum impls and the rescale primitives are type-checked path by path for symbolic operands of arbitrary value and scale: integer +/- only at provably equal scale dimensions, powers of ten and rescaling only upward (direction obligations proven from the path\'s cmp/max facts, helper preconditions lifted to and proven at their call sites), no lossy integer operation feeds an exact result, every constructed decimal is well-formed, and the returned value equals a (op) b as a polynomial normal form under the path\'s value facts (zero/one shortcuts). NOT decided: that ten_to_the*(k)=10^k and count/normalise helpers meet their summaries; num-bigint arithmetic; termination.',
+  'note': TRUST + ' Assume-guarantee between overloads (each assumed to meet its spec while another is checked): sound for partial correctness.',
+ },
+ 'C09': {
+  'technique': 'static analysis: scale-dimension typing of the four hand-written Rem variants and RemAssign; zero-divisor must-pass-through',
+  'text': 'Partial, structural: each of the four Rem forms aligns both operands upward to max(scale) (direction obligations proven), applies % to (a, b) in that order at provably equal dimensions and constructs the result at that scale; RemAssign forwards in the right order; a zero divisor reaches num-bigint\'s panicking % on every path. num-bigint\'s truncated-% sign convention is trusted, not decided.',
+  'note': TRUST,
+ },
+ 'C19': {
+  'technique': 'static analysis: the inductive step of the program-level property via scale-parametric dimension typing; by-value predicate check',
+  'text': 'Partial, structural: the quantifier over programs is discharged by induction on program length from per-operation exactness for ARBITRARY operand representations: R-SCALE\'s proofs are parametric in the operands\' scales and digits, all compound-assignment bodies are covered, and every zero/one shortcut path is verified under the value fact (x:=0, x:=1) whatever the scale; is_zero looks only at the unscaled integer and is_one is by-value equality. Comparisons/hashes taken along the way and normalized()\'s loop are NOT decided.',
+  'note': TRUST,
+ },
 }
 _PENDING = 'check not built yet in this commit (implementation in progress, see DESIGN.md section 8)'
 NOT_APPLICABLE = {('C%02d' % i): _PENDING for i in range(1, 21) if ('C%02d' % i) not in CLAIMS}
